@@ -19,6 +19,7 @@ import (
 	"sort"
 	"strings"
 	"sync"
+	"unsafe"
 
 	"github.com/biogo/biogo/morass"
 	"verif/h/enum"
@@ -54,49 +55,71 @@ type history struct {
 	Cycles []cycle `json:"cycles"`
 }
 
-// stateKey reads the part of the sorter that can influence the future at a
-// cycle boundary.  ok=false: a field is missing, merging is disabled.
+// stateKey renders the part of the sorter that can influence the future at a
+// cycle boundary.  It walks ALL fields of the struct by reflection (so that
+// renaming or regrouping fields does not matter): scalars by value; slices as
+// (nil, len, cap==0); channels as their buffered contents, each rendered the
+// same way (the channel is rotated to look at them); interfaces and pointers
+// as nil / non-nil; strings (temp directory, prefix), functions, types and
+// synchronisation primitives are skipped; nested structs are walked.  ok=false
+// when the value is not a struct pointer.
 func stateKey(m *morass.Morass) (string, bool) {
+	v := reflect.ValueOf(m)
+	if v.Kind() != reflect.Ptr || v.Elem().Kind() != reflect.Struct {
+		return "", false
+	}
 	var sb strings.Builder
-	get := func(n string) (reflect.Value, bool) { return enum.Field(m, n) }
-	for _, n := range []string{"fast", "pos", "len"} {
-		v, ok := get(n)
-		if !ok {
-			return "", false
-		}
-		fmt.Fprintf(&sb, "%s=%v;", n, v.Interface())
-	}
-	ch, ok := get("chunk")
-	if !ok {
-		return "", false
-	}
-	fmt.Fprintf(&sb, "chunk=nil:%v,len:%d,cap0:%v;", ch.IsNil(), ch.Len(), ch.Cap() == 0)
-	for _, n := range []string{"pool", "writable"} {
-		c, ok := get(n)
-		if !ok {
-			return "", false
-		}
-		k := c.Len()
-		fmt.Fprintf(&sb, "%s=%d[", n, k)
-		// rotate the buffered slices through the channel to look at them
-		for i := 0; i < k; i++ {
-			x, _ := c.Recv()
-			fmt.Fprintf(&sb, "nil:%v,len:%d,cap0:%v|", x.IsNil(), x.Len(), x.Cap() == 0)
-			c.Send(x)
-		}
-		sb.WriteString("];")
-	}
-	fs, ok := get("files")
-	if !ok {
-		return "", false
-	}
-	fmt.Fprintf(&sb, "files=%d;", fs.Len())
-	e, ok := get("_err")
-	if !ok {
-		return "", false
-	}
-	fmt.Fprintf(&sb, "err=%v", !e.IsNil())
+	walkStruct(&sb, v.Elem(), 0)
 	return sb.String(), true
+}
+
+func walkStruct(sb *strings.Builder, v reflect.Value, depth int) {
+	t := v.Type()
+	if p := t.PkgPath(); p == "sync" || p == "sync/atomic" || p == "reflect" || depth > 3 {
+		return
+	}
+	for i := 0; i < v.NumField(); i++ {
+		f := v.Field(i)
+		if f.CanAddr() {
+			f = reflect.NewAt(f.Type(), unsafe.Pointer(f.UnsafeAddr())).Elem()
+		}
+		fmt.Fprintf(sb, "%d:", i)
+		walkValue(sb, f, depth)
+		sb.WriteByte(';')
+	}
+}
+
+func walkValue(sb *strings.Builder, f reflect.Value, depth int) {
+	switch f.Kind() {
+	case reflect.Bool:
+		fmt.Fprint(sb, f.Bool())
+	case reflect.Int, reflect.Int8, reflect.Int16, reflect.Int32, reflect.Int64:
+		fmt.Fprint(sb, f.Int())
+	case reflect.Uint, reflect.Uint8, reflect.Uint16, reflect.Uint32, reflect.Uint64:
+		fmt.Fprint(sb, f.Uint())
+	case reflect.Slice:
+		fmt.Fprintf(sb, "nil:%v,len:%d,cap0:%v", f.IsNil(), f.Len(), f.Cap() == 0)
+	case reflect.Chan:
+		if f.IsNil() {
+			sb.WriteString("nilchan")
+			return
+		}
+		k := f.Len()
+		fmt.Fprintf(sb, "chan%d[", k)
+		for j := 0; j < k; j++ {
+			x, _ := f.Recv()
+			walkValue(sb, x, depth+1)
+			sb.WriteByte('|')
+			f.Send(x)
+		}
+		sb.WriteByte(']')
+	case reflect.Interface, reflect.Ptr, reflect.Map:
+		fmt.Fprintf(sb, "nil:%v", f.IsNil())
+	case reflect.Struct:
+		sb.WriteByte('{')
+		walkStruct(sb, f, depth+1)
+		sb.WriteByte('}')
+	}
 }
 
 type runner struct {
@@ -355,7 +378,7 @@ var (
 )
 
 func run(c *enum.Ctx) {
-	c.Rule("breadth-first search over cycle histories on a real sorter: each transition is one whole cycle (push a value word, Finalise, k Pulls, Clear) from an alphabet with push counts 0,1,chunk-1,chunk,chunk+1,2chunk+1 (thorough: 2chunk, 3chunk+1), every value word over {1,2} up to length 3 (5) and every pull count in {0,1,half,all,all+1}; states are merged at cycle boundaries on a reflective key of the sorter (fast, pos, len, chunk nil/len/cap, pool and writable contents, file count, error slot); run to closure per configuration (chunk 1..3 x AutoClear x concurrent x element type); reference model = sorted multiset; non-trivial = histories whose last cycle spills")
+	c.Rule("breadth-first search over cycle histories on a real sorter: each transition is one whole cycle (push a value word, Finalise, k Pulls, Clear) from an alphabet with push counts 0,1,chunk-1,chunk,chunk+1,2chunk+1 (thorough: 2chunk, 3chunk+1), every value word over {1,2} up to length 3 (5) and every pull count in {0,1,half,all,all+1}; states are merged at cycle boundaries on a reflective key of the sorter (every field of the struct: scalars, slice shapes, channel contents, nil-ness of interfaces; strings and sync primitives skipped); run to closure per configuration (chunk 1..3 x AutoClear x concurrent x element type); reference model = sorted multiset; non-trivial = histories whose last cycle spills")
 	c.Assume("protocol order push* finalise pull* clear; Clear implicit after EOF with AutoClear", "two histories with equal boundary keys have equal futures (the key is read from the real object; a missing field disables merging); histories of up to 2 (thorough: 3) cycles are all run without merging")
 	work := os.Getenv("VERIF_WORK")
 	if work == "" {
